@@ -64,6 +64,7 @@ def setup(rep, tier):
     rep.minimum('R02.5', 1)
     rep.minimum('R02.6', 1)
     rep.minimum('R02.7', 60)
+    rep.minimum('R02.8', 1)
 
 
 def coder_calls(f):
@@ -610,6 +611,9 @@ def check(rep, prog, tier):
     r02_3(rep, prog)
     r02_4(rep, prog)
     r02_5(rep, prog)
+    from . import deadstate
+    if deadstate.check(rep, 'R02.8', prog, 'encoder') == 0 and prog.config.split('+')[0] in ('float', 'fixed'):
+        rep.unresolved('R02.8', 'no written state fields found')
 
 
 def finish(rep, tier, progs):
